@@ -54,7 +54,9 @@ func (s *memStore) InsertEntry(ctx context.Context, e *filer.Entry) error {
 	s.dirs[dir][name] = &c
 	return nil
 }
-func (s *memStore) UpdateEntry(ctx context.Context, e *filer.Entry) error { return s.InsertEntry(ctx, e) }
+func (s *memStore) UpdateEntry(ctx context.Context, e *filer.Entry) error {
+	return s.InsertEntry(ctx, e)
+}
 func (s *memStore) FindEntry(ctx context.Context, fp util.FullPath) (*filer.Entry, error) {
 	s.mu.Lock()
 	defer s.mu.Unlock()
@@ -113,8 +115,8 @@ func (s *memStore) ListDirectoryPrefixedEntries(ctx context.Context, dirPath uti
 	return "", filer.ErrUnsupportedListDirectoryPrefixed
 }
 func (s *memStore) BeginTransaction(ctx context.Context) (context.Context, error) { return ctx, nil }
-func (s *memStore) CommitTransaction(ctx context.Context) error                  { return nil }
-func (s *memStore) RollbackTransaction(ctx context.Context) error                { return nil }
+func (s *memStore) CommitTransaction(ctx context.Context) error                   { return nil }
+func (s *memStore) RollbackTransaction(ctx context.Context) error                 { return nil }
 func (s *memStore) KvPut(ctx context.Context, key []byte, value []byte) error {
 	s.kv[string(key)] = value
 	return nil
@@ -125,17 +127,20 @@ func (s *memStore) KvGet(ctx context.Context, key []byte) ([]byte, error) {
 	}
 	return nil, filer.ErrKvNotFound
 }
-func (s *memStore) KvDelete(ctx context.Context, key []byte) error { delete(s.kv, string(key)); return nil }
-func (s *memStore) Shutdown()                                       {}
+func (s *memStore) KvDelete(ctx context.Context, key []byte) error {
+	delete(s.kv, string(key))
+	return nil
+}
+func (s *memStore) Shutdown() {}
 
 // ---------- configuration for the leveldb stores ----------
 
 type dirConf struct{ dir string }
 
-func (c dirConf) GetString(key string) string         { return c.dir }
-func (c dirConf) GetBool(key string) bool             { return false }
-func (c dirConf) GetInt(key string) int               { return 0 }
-func (c dirConf) GetStringSlice(key string) []string  { return nil }
+func (c dirConf) GetString(key string) string          { return c.dir }
+func (c dirConf) GetBool(key string) bool              { return false }
+func (c dirConf) GetInt(key string) int                { return 0 }
+func (c dirConf) GetStringSlice(key string) []string   { return nil }
 func (c dirConf) SetDefault(key string, v interface{}) {}
 
 // store kinds; 0..2 share one model (the leveldb start/prefix rule), 3 is the generic path
